@@ -287,6 +287,51 @@ example : ∃ con' res' s', DynOK (Fx.con0 .proportional) ∧
     (p := fun x : Consist ℚ × ResStrap ℚ × TrainState ℚ => decide (0 < x.2.2.k.pwrWhlOut)) (by decide +kernel)
   exact ⟨x.1, x.2.1, x.2.2, Fx.con0_dynOK _, h, of_decide_eq_true hp⟩
 
+/-- 1b without `DynOK` (FALSE in the field model) -/
+def C11_ss_power_unguarded_statement : Prop :=
+  ∀ (kc : Consts α) (c : TrConsts α) (g rho : α) (t : Tpc α) (res res' : ResStrap α)
+    (con con' : Consist α) (s s' : TrainState α) (vPrev vCur tPrev tCur : α),
+    ssStep kc c g rho t res con s vPrev vCur tPrev tCur = .ok (con', res', s') →
+      con'.state.pwrOut = s'.k.pwrWhlOut
+
+namespace Fx
+/-- one battery unit whose regen limit equals its 4 kW rating, limit checking ON, and a STALE
+    stored brake limit of 5 kW (> Σ ratings = 4 kW) -/
+def staleCon : Consist ℚ :=
+  ⟨[C10.Ex.loco true 4 4 4], .resGreedy, true,
+    { C10.Ex.publish [C10.Ex.loco true 4 4 4] with pwrDynBrakeMax := 5 }⟩
+/-- a train whose deceleration 1 → 0 m/s in 1 s releases `4 + 10⁻⁹` W -/
+def staleS : TrainState ℚ :=
+  { s0 with r := { r0 with massStatic := 8 + 2/1000000000, speed := 1 },
+            k := { k0 with massRot := 0 } }
+end Fx
+
+/-- **Why `DynOK` is needed (model artefact, not a code defect).**  The train clamps its demand at
+    the STORED brake limit (5), asks for `−4 − 10⁻⁹`; the consist's check against the stored limit
+    passes; the regen deficit `10⁻⁹` is to be spread over a dynamic-braking surplus of
+    `Σ rating − Σ regen = 0`: the field model evaluates `deficit / 0 = 0`, passes the `surplus-frac`
+    check, the unit gets `−4`, and the final `almost_eq` cannot see a `10⁻⁹` mismatch: the step is
+    accepted with train demand `−4 − 10⁻⁹` and consist delivery `−4`.  In IEEE arithmetic
+    `deficit / 0 = +∞` fails the `surplus-frac` check and the step is rejected. -/
+theorem C11_stale_brake_limit_counterexample :
+    ¬ DynOK Fx.staleCon ∧
+    ∃ con' res' s', ssStep C10.Ex.k Fx.cT Fx.g Fx.rho Fx.tpc Fx.strap0 Fx.staleCon Fx.staleS 1 0 0 1
+        = .ok (con', res', s') ∧
+      s'.k.pwrWhlOut = -4 - 1/1000000000 ∧ con'.state.pwrOut = -4 := by
+  refine ⟨by unfold DynOK; decide +kernel, ?_⟩
+  obtain ⟨x, h, hp⟩ := C01.Ex.okAnd_exists
+    (r := ssStep C10.Ex.k Fx.cT Fx.g Fx.rho Fx.tpc Fx.strap0 Fx.staleCon Fx.staleS 1 0 0 1)
+    (p := fun x : Consist ℚ × ResStrap ℚ × TrainState ℚ =>
+      decide (x.2.2.k.pwrWhlOut = -4 - 1/1000000000 ∧ x.1.state.pwrOut = -4)) (by decide +kernel)
+  exact ⟨x.1, x.2.1, x.2.2, h, of_decide_eq_true hp⟩
+
+theorem C11_ss_power_unguarded_counterexample : ¬ C11_ss_power_unguarded_statement (α := ℚ) := by
+  intro hall
+  obtain ⟨_, con', res', s', h, h1, h2⟩ := C11_stale_brake_limit_counterexample
+  have := hall _ _ _ _ _ _ _ _ _ _ _ _ _ _ _ h
+  rw [h1, h2] at this
+  norm_num at this
+
 /-- **1c. One `SpeedLimitTrainSim::solve_step`**: the same, with `dt = state.dt` (unchanged). -/
 def C11_sl_power_statement : Prop :=
   ∀ (kc : Consts α) (c : TrConsts α) (sqrt : α → α) (g rho : α) (t : Tpc α) (res res' : ResStrap α)
@@ -367,5 +412,373 @@ example : ∃ con' res' s', DynOK (Fx.con0 .proportional) ∧
                                       energyWhlOutNeg := 2 } } 2 1 4 5)
     (p := fun x : Consist ℚ × ResStrap ℚ × TrainState ℚ => decide (x.2.2.k.pwrWhlOut < 0)) (by decide +kernel)
   exact ⟨x.1, x.2.1, x.2.2, Fx.con0_dynOK _, h, of_decide_eq_true hp⟩
+
+/-- non-vacuity of `C11_sl_energy`, and of the fact that `assert_limits` plays no role at train
+    level: the same speed-limited step with limit checking OFF is accepted, so 1c and 2 apply -/
+example : ∃ con' res' fb' bp' s', DynOK { Fx.con0 .resGreedy with assertLimits := false } ∧
+    slStep C01.Ex.kQ Fx.cT Fx.sqrtQ Fx.g Fx.rho Fx.tpc Fx.strap
+      { Fx.con0 .resGreedy with assertLimits := false } Fx.ufm Fx.fb0 Fx.bp0 Fx.s0
+      = .ok (con', res', fb', bp', s') ∧ con'.state.pwrOut = s'.k.pwrWhlOut ∧
+    StepEnergies { Fx.con0 .resGreedy with assertLimits := false } con' Fx.s0 s' Fx.s0.k.dt := by
+  have hd : DynOK { Fx.con0 .resGreedy with assertLimits := false } := by
+    unfold DynOK; decide +kernel
+  obtain ⟨x, h, _⟩ := C01.Ex.okAnd_exists
+    (r := slStep C01.Ex.kQ Fx.cT Fx.sqrtQ Fx.g Fx.rho Fx.tpc Fx.strap
+      { Fx.con0 .resGreedy with assertLimits := false } Fx.ufm Fx.fb0 Fx.bp0 Fx.s0)
+    (p := fun _ => true) (by decide +kernel)
+  exact ⟨x.1, x.2.1, x.2.2.1, x.2.2.2.1, x.2.2.2.2, hd, h,
+    (C11_sl_power _ _ _ _ _ _ _ _ _ _ _ _ _ _ _ _ _ hd h).2.2.1,
+    C11_sl_energy _ _ _ _ _ _ _ _ _ _ _ _ _ _ _ _ _ hd h⟩
+
+/-! ## Clause 4 — trip-level outputs (getters of `SpeedLimitTrainSim`) -/
+
+/-- `get_energy_fuel(annualize)`: `loco_con.get_energy_fuel() * get_scaling_factor(annualize)` -/
+def tripEnergyFuel (c36525 : α) (days : Option α) (con : Consist α) (annualize : Bool) : α :=
+  getEnergyFuel con * scalingFactor c36525 annualize days
+
+/-- `get_net_energy_res(annualize)` -/
+def tripNetEnergyRes (c36525 : α) (days : Option α) (con : Consist α) (annualize : Bool) : α :=
+  getNetEnergyRes con * scalingFactor c36525 annualize days
+
+/-- `get_kilometers(annualize)`: `total_dist.get::<si::kilometer>() * factor`; the unit conversion
+    is a division by the constant `c1000` -/
+def tripKilometers (c36525 c1000 : α) (days : Option α) (s : TrainState α) (annualize : Bool) : α :=
+  s.k.totalDist / c1000 * scalingFactor c36525 annualize days
+
+/-- `get_megagram_kilometers(annualize)`:
+    `mass_freight.get::<si::megagram>() * total_dist.get::<si::kilometer>() * factor` -/
+def tripMegagramKilometers (c36525 c1000 : α) (days : Option α) (s : TrainState α)
+    (annualize : Bool) : α :=
+  s.k.massFreight / c1000 * (s.k.totalDist / c1000) * scalingFactor c36525 annualize days
+
+/-- **4a. The documented annualisation factor**: 1 when not annualising, `365.25 / days` for a
+    simulation of `days` days, `365.25` when no duration is given. -/
+def C11_scaling_factor_statement : Prop :=
+  ∀ (c36525 d : α) (days : Option α),
+    scalingFactor c36525 false days = 1 ∧
+    scalingFactor c36525 true (some d) = c36525 / d ∧
+    scalingFactor c36525 true none = c36525 ∧
+    -- guard: `simulation_days = 0` divides by zero (IEEE: +∞; field model: 0)
+    (d ≠ 0 → scalingFactor c36525 true (some d) * d = c36525)
+
+theorem C11_scaling_factor : C11_scaling_factor_statement (α := α) := by
+  intro c d days
+  refine ⟨rfl, rfl, rfl, fun hd => ?_⟩
+  show c / d * d = c
+  field_simp
+
+example : scalingFactor (36525/100 : ℚ) true (some 7) = 36525/700 ∧
+    scalingFactor (36525/100 : ℚ) true (some 7) * 7 = 36525/100 := by
+  obtain ⟨_, h2, _, h4⟩ := C11_scaling_factor (36525/100 : ℚ) 7 none
+  exact ⟨by rw [h2]; norm_num, h4 (by norm_num)⟩
+
+/-- **4b. Scaled only by the factor.**  Every trip output is its total times the factor; without
+    annualisation it IS the total; the annualised output is the plain output times the factor. -/
+def C11_trip_outputs_statement : Prop :=
+  ∀ (c36525 c1000 : α) (days : Option α) (con : Consist α) (s : TrainState α) (ann : Bool),
+    tripEnergyFuel c36525 days con ann = getEnergyFuel con * scalingFactor c36525 ann days ∧
+    tripNetEnergyRes c36525 days con ann = getNetEnergyRes con * scalingFactor c36525 ann days ∧
+    tripKilometers c36525 c1000 days s ann = s.k.totalDist / c1000 * scalingFactor c36525 ann days ∧
+    tripMegagramKilometers c36525 c1000 days s ann =
+      s.k.massFreight / c1000 * (s.k.totalDist / c1000) * scalingFactor c36525 ann days ∧
+    -- not annualised: the totals themselves
+    tripEnergyFuel c36525 days con false = getEnergyFuel con ∧
+    tripNetEnergyRes c36525 days con false = getNetEnergyRes con ∧
+    tripKilometers c36525 c1000 days s false = s.k.totalDist / c1000 ∧
+    tripMegagramKilometers c36525 c1000 days s false = s.k.massFreight / c1000 * (s.k.totalDist / c1000) ∧
+    -- annualised = not annualised × factor
+    tripEnergyFuel c36525 days con ann =
+      tripEnergyFuel c36525 days con false * scalingFactor c36525 ann days ∧
+    tripNetEnergyRes c36525 days con ann =
+      tripNetEnergyRes c36525 days con false * scalingFactor c36525 ann days ∧
+    tripKilometers c36525 c1000 days s ann =
+      tripKilometers c36525 c1000 days s false * scalingFactor c36525 ann days ∧
+    tripMegagramKilometers c36525 c1000 days s ann =
+      tripMegagramKilometers c36525 c1000 days s false * scalingFactor c36525 ann days
+
+theorem C11_trip_outputs : C11_trip_outputs_statement (α := α) := by
+  intro c k days con s ann
+  have h1 : scalingFactor c false days = 1 := rfl
+  refine ⟨rfl, rfl, rfl, rfl, ?_, ?_, ?_, ?_, ?_, ?_, ?_, ?_⟩ <;>
+    simp only [tripEnergyFuel, tripNetEnergyRes, tripKilometers, tripMegagramKilometers, h1, mul_one]
+
+/-- non-vacuity: 60 kg of freight over 7.5 m in a 7-day simulation -/
+example : tripMegagramKilometers (36525/100 : ℚ) 1000 (some 7)
+    { Fx.s0 with k := { Fx.k0 with totalDist := 15/2 } } true = 60/1000 * ((15/2)/1000) * (36525/700) := by
+  rw [(C11_trip_outputs (36525/100 : ℚ) 1000 (some 7) (Fx.con0 .proportional) _ true).2.2.2.1]
+  decide +kernel
+
+/-! ## Clause 3 — whole runs, every saved step -/
+
+/-- the state a set-speed run threads through its steps -/
+abbrev SsState (α : Type) := Consist α × ResStrap α × TrainState α
+/-- the state a speed-limited run threads through its steps -/
+abbrev SlState (α : Type) := Consist α × ResStrap α × FricBrake α × BrakingPoints α × TrainState α
+
+/-- `SetSpeedTrainSim::solve_step` on the threaded state; input `(v[i-1], v[i], t[i-1], t[i])` -/
+def ssStepT (kc : Consts α) (c : TrConsts α) (g rho : α) (t : Tpc α) (st : SsState α)
+    (i : α × α × α × α) : Res (SsState α) :=
+  ssStep kc c g rho t st.2.1 st.1 st.2.2 i.1 i.2.1 i.2.2.1 i.2.2.2
+
+/-- `SetSpeedTrainSim::walk` over a list of step inputs (left fold; the first rejected step aborts) -/
+def ssWalk (kc : Consts α) (c : TrConsts α) (g rho : α) (t : Tpc α) (st : SsState α)
+    (tr : List (α × α × α × α)) : Res (SsState α) :=
+  walkG (ssStepT kc c g rho t) st tr
+
+/-- the step inputs of a speed trace `[(t₀,v₀), (t₁,v₁), …]`: consecutive samples -/
+def traceSteps : List (α × α) → List (α × α × α × α)
+  | (t0, v0) :: (t1, v1) :: rest => (v0, v1, t0, t1) :: traceSteps ((t1, v1) :: rest)
+  | _ => []
+
+/-- `SpeedLimitTrainSim::solve_step` on the threaded state; input: the units' `force_max()` -/
+def slStepT (kc : Consts α) (c : TrConsts α) (sqrt : α → α) (g rho : α) (t : Tpc α) (st : SlState α)
+    (ufm : List α) : Res (SlState α) :=
+  slStep kc c sqrt g rho t st.2.1 st.1 ufm st.2.2.1 st.2.2.2.1 st.2.2.2.2
+
+/-- `SpeedLimitTrainSim::walk` as a sequence of steps (however many the loop condition allows) -/
+def slWalk (kc : Consts α) (c : TrConsts α) (sqrt : α → α) (g rho : α) (t : Tpc α) (st : SlState α)
+    (tr : List (List α)) : Res (SlState α) :=
+  walkG (slStepT kc c sqrt g rho t) st tr
+
+/-- what stays true along a run started at `(s0, con0)` -/
+def Tracks (s0 : TrainState α) (con0 : Consist α) (s : TrainState α) (con : Consist α) : Prop :=
+  DynOK con ∧ levelDefects s con = levelDefects s0 con0 ∧
+  consistDefects con = consistDefects con0 ∧ s.k.massFreight = s0.k.massFreight ∧
+  con.locos.length = con0.locos.length
+
+theorem tracks_step {kc : Consts α} {s0 s s' : TrainState α} {con0 con con' : Consist α}
+    (ht : Tracks s0 con0 s con) (ha : StepAgree kc con con' s.k s'.k) : Tracks s0 con0 s' con' :=
+  ⟨le_of_eq ha.dyn, (levelDefects_of_stepAgree ha).trans ht.2.1, ha.defects.trans ht.2.2.1,
+    ha.massFreight.trans ht.2.2.2.1, ha.length.trans ht.2.2.2.2⟩
+
+theorem powerAgree_of_stepAgree {kc : Consts α} {s s' : TrainState α} {con con' : Consist α}
+    (ha : StepAgree kc con con' s.k s'.k) : PowerAgree s' con' := ⟨ha.pwr, ha.pwrSum⟩
+
+/-- at a saved state, all levels report the same numbers -/
+def LevelsClosed (s : TrainState α) (con : Consist α) : Prop :=
+  -- wheel energy: train = consist = Σ locomotives
+  s.k.energyWhlOut = con.state.energyOut ∧
+  con.state.energyOut = sumLeft (con.locos.map (·.state.energyOut)) ∧
+  -- its positive and negative parts: train = consist; net = positive − negative
+  s.k.energyWhlOutPos = con.state.energyOutPos ∧
+  s.k.energyWhlOutNeg = con.state.energyOutNeg ∧
+  s.k.energyWhlOut = s.k.energyWhlOutPos - s.k.energyWhlOutNeg ∧
+  -- fuel and battery energy: consist counter = Σ over units (`get_energy_fuel`, `get_net_energy_res`)
+  con.state.energyFuel = getEnergyFuel con ∧
+  con.state.energyRes = getNetEnergyRes con
+
+theorem closed_of_tracks {s0 s : TrainState α} {con0 con : Consist α} (ht : Tracks s0 con0 s con)
+    (h0 : levelDefects s0 con0 = (0, 0, 0)) (hz : ∀ d ∈ consistDefects con0, d = 0) :
+    LevelsClosed s con := by
+  obtain ⟨_, hl, hc, _⟩ := ht
+  rw [h0] at hl
+  rw [← hc] at hz
+  simp only [levelDefects, Prod.mk.injEq] at hl
+  simp only [consistDefects, List.mem_cons, List.not_mem_nil, or_false, forall_eq_or_imp,
+    forall_eq] at hz
+  obtain ⟨l1, l2, l3⟩ := hl
+  obtain ⟨z1, z2, z3, z4⟩ := hz
+  refine ⟨sub_eq_zero.mp l1, sub_eq_zero.mp z3, sub_eq_zero.mp l2, sub_eq_zero.mp l3, ?_,
+    sub_eq_zero.mp z1, sub_eq_zero.mp z2⟩
+  linarith
+
+section ss
+variable (kc : Consts α) (c : TrConsts α) (g rho : α) (t : Tpc α)
+
+theorem ss_tracks_step (s0 : TrainState α) (con0 : Consist α) (st : SsState α) (i : α × α × α × α)
+    (st' : SsState α) (ht : Tracks s0 con0 st.2.2 st.1) (h : ssStepT kc c g rho t st i = .ok st') :
+    Tracks s0 con0 st'.2.2 st'.1 ∧ PowerAgree st'.2.2 st'.1 := by
+  have ha := (ss_stepAgree (con' := st'.1) (res' := st'.2.1) (s' := st'.2.2) ht.1 h).2
+  exact ⟨tracks_step ht ha, powerAgree_of_stepAgree ha⟩
+
+/-- **3a. Any accepted set-speed run.** -/
+def C11_ss_walk_statement : Prop :=
+  ∀ (kc : Consts α) (c : TrConsts α) (g rho : α) (t : Tpc α) (con con' : Consist α)
+    (res res' : ResStrap α) (s s' : TrainState α) (tr : List (α × α × α × α)),
+    -- on the INITIAL consist only; FORCED only through `deficit / 0 = 0`
+    DynOK con →
+    ssWalk kc c g rho t (con, res, s) tr = .ok (con', res', s') →
+      levelDefects s' con' = levelDefects s con ∧
+      consistDefects con' = consistDefects con ∧
+      (tr ≠ [] → PowerAgree s' con') ∧
+      DynOK con' ∧ con'.locos.length = con.locos.length ∧ s'.k.massFreight = s.k.massFreight
+
+theorem C11_ss_walk : C11_ss_walk_statement (α := α) := by
+  intro kc c g rho t con con' res res' s s' tr hdyn h
+  have h0 : Tracks s con s con := ⟨hdyn, rfl, rfl, rfl, rfl⟩
+  have hstep : ∀ (st : SsState α) i st', Tracks s con st.2.2 st.1 →
+      ssStepT kc c g rho t st i = .ok st' → Tracks s con st'.2.2 st'.1 :=
+    fun st i st' ht hs => (ss_tracks_step kc c g rho t s con st i st' ht hs).1
+  have ht := walkG_invariant (fun st : SsState α => Tracks s con st.2.2 st.1) hstep h0 h
+  refine ⟨ht.2.1, ht.2.2.1, fun hne => ?_, ht.1, ht.2.2.2.2, ht.2.2.2.1⟩
+  exact walkG_last (fun st : SsState α => Tracks s con st.2.2 st.1)
+    (fun st : SsState α => PowerAgree st.2.2 st.1) hstep
+    (fun st i st' ht hs => (ss_tracks_step kc c g rho t s con st i st' ht hs).2) h0 hne h
+
+/-- **3b. Every saved step of a set-speed run started with agreeing counters** (e.g. all zero):
+    after every prefix of every accepted run all levels report the same numbers. -/
+def C11_ss_closed_statement : Prop :=
+  ∀ (kc : Consts α) (c : TrConsts α) (g rho : α) (t : Tpc α) (con : Consist α) (res : ResStrap α)
+    (s : TrainState α) (fin : SsState α) (pre post : List (α × α × α × α)),
+    DynOK con →
+    levelDefects s con = (0, 0, 0) → (∀ d ∈ consistDefects con, d = 0) →
+    ssWalk kc c g rho t (con, res, s) (pre ++ post) = .ok fin →
+      ∃ con' res' s', ssWalk kc c g rho t (con, res, s) pre = .ok (con', res', s') ∧
+        ssWalk kc c g rho t (con', res', s') post = .ok fin ∧
+        LevelsClosed s' con' ∧ (pre ≠ [] → PowerAgree s' con') ∧
+        con'.locos.length = con.locos.length ∧ s'.k.massFreight = s.k.massFreight
+
+theorem C11_ss_closed : C11_ss_closed_statement (α := α) := by
+  intro kc c g rho t con res s fin pre post hdyn h0 hz h
+  obtain ⟨⟨con', res', s'⟩, h1, h2⟩ := (walkG_append _ _ _ pre post).mp h
+  obtain ⟨a1, a2, a3, a4, a5, a6⟩ := C11_ss_walk kc c g rho t con con' res res' s s' pre hdyn h1
+  exact ⟨con', res', s', h1, h2, closed_of_tracks ⟨a4, a1, a2, a6, a5⟩ h0 hz, a3, a5, a6⟩
+
+end ss
+
+section sl
+variable (kc : Consts α) (c : TrConsts α) (sqrt : α → α) (g rho : α) (t : Tpc α)
+
+theorem sl_tracks_step (s0 : TrainState α) (con0 : Consist α) (st : SlState α) (i : List α)
+    (st' : SlState α) (ht : Tracks s0 con0 st.2.2.2.2 st.1)
+    (h : slStepT kc c sqrt g rho t st i = .ok st') :
+    Tracks s0 con0 st'.2.2.2.2 st'.1 ∧ PowerAgree st'.2.2.2.2 st'.1 := by
+  have ha := (sl_stepAgree (con' := st'.1) (res' := st'.2.1) (fb' := st'.2.2.1) (bp' := st'.2.2.2.1)
+    (s' := st'.2.2.2.2) ht.1 h).2
+  exact ⟨tracks_step ht ha, powerAgree_of_stepAgree ha⟩
+
+/-- **3c. Any accepted speed-limited run.** -/
+def C11_sl_walk_statement : Prop :=
+  ∀ (kc : Consts α) (c : TrConsts α) (sqrt : α → α) (g rho : α) (t : Tpc α) (con con' : Consist α)
+    (res res' : ResStrap α) (fb fb' : FricBrake α) (bp bp' : BrakingPoints α) (s s' : TrainState α)
+    (tr : List (List α)),
+    -- on the INITIAL consist only; FORCED only through `deficit / 0 = 0`
+    DynOK con →
+    slWalk kc c sqrt g rho t (con, res, fb, bp, s) tr = .ok (con', res', fb', bp', s') →
+      levelDefects s' con' = levelDefects s con ∧
+      consistDefects con' = consistDefects con ∧
+      (tr ≠ [] → PowerAgree s' con') ∧
+      DynOK con' ∧ con'.locos.length = con.locos.length ∧ s'.k.massFreight = s.k.massFreight
+
+theorem C11_sl_walk : C11_sl_walk_statement (α := α) := by
+  intro kc c sqrt g rho t con con' res res' fb fb' bp bp' s s' tr hdyn h
+  have h0 : Tracks s con s con := ⟨hdyn, rfl, rfl, rfl, rfl⟩
+  have hstep : ∀ (st : SlState α) i st', Tracks s con st.2.2.2.2 st.1 →
+      slStepT kc c sqrt g rho t st i = .ok st' → Tracks s con st'.2.2.2.2 st'.1 :=
+    fun st i st' ht hs => (sl_tracks_step kc c sqrt g rho t s con st i st' ht hs).1
+  have ht := walkG_invariant (fun st : SlState α => Tracks s con st.2.2.2.2 st.1) hstep h0 h
+  refine ⟨ht.2.1, ht.2.2.1, fun hne => ?_, ht.1, ht.2.2.2.2, ht.2.2.2.1⟩
+  exact walkG_last (fun st : SlState α => Tracks s con st.2.2.2.2 st.1)
+    (fun st : SlState α => PowerAgree st.2.2.2.2 st.1) hstep
+    (fun st i st' ht hs => (sl_tracks_step kc c sqrt g rho t s con st i st' ht hs).2) h0 hne h
+
+/-- **3d. Every saved step of a speed-limited run started with agreeing counters.** -/
+def C11_sl_closed_statement : Prop :=
+  ∀ (kc : Consts α) (c : TrConsts α) (sqrt : α → α) (g rho : α) (t : Tpc α) (con : Consist α)
+    (res : ResStrap α) (fb : FricBrake α) (bp : BrakingPoints α) (s : TrainState α) (fin : SlState α)
+    (pre post : List (List α)),
+    DynOK con →
+    levelDefects s con = (0, 0, 0) → (∀ d ∈ consistDefects con, d = 0) →
+    slWalk kc c sqrt g rho t (con, res, fb, bp, s) (pre ++ post) = .ok fin →
+      ∃ con' res' fb' bp' s',
+        slWalk kc c sqrt g rho t (con, res, fb, bp, s) pre = .ok (con', res', fb', bp', s') ∧
+        slWalk kc c sqrt g rho t (con', res', fb', bp', s') post = .ok fin ∧
+        LevelsClosed s' con' ∧ (pre ≠ [] → PowerAgree s' con') ∧
+        con'.locos.length = con.locos.length ∧ s'.k.massFreight = s.k.massFreight
+
+theorem C11_sl_closed : C11_sl_closed_statement (α := α) := by
+  intro kc c sqrt g rho t con res fb bp s fin pre post hdyn h0 hz h
+  obtain ⟨⟨con', res', fb', bp', s'⟩, h1, h2⟩ := (walkG_append _ _ _ pre post).mp h
+  obtain ⟨a1, a2, a3, a4, a5, a6⟩ :=
+    C11_sl_walk kc c sqrt g rho t con con' res res' fb fb' bp bp' s s' pre hdyn h1
+  exact ⟨con', res', fb', bp', s', h1, h2, closed_of_tracks ⟨a4, a1, a2, a6, a5⟩ h0 hz, a3,
+    a5, a6⟩
+
+end sl
+
+/-! ### Non-vacuity of clause 3 on concrete rational runs -/
+namespace Fx
+def ssPre : List (ℚ × ℚ × ℚ × ℚ) := [(0, 1, 0, 1), (1, 2, 1, 2), (2, 2, 2, 4)]
+def ssPost : List (ℚ × ℚ × ℚ × ℚ) := [(2, 1, 4, 5)]
+theorem ssTr_eq : ssTr = ssPre ++ ssPost := rfl
+theorem ssTr_trace : ssTr = traceSteps [(0, 0), (1, 1), (2, 2), (4, 2), (5, 1)] := rfl
+def slPre : List (List ℚ) := [ufm, ufm, ufm]
+def slPost : List (List ℚ) := [ufm]
+theorem levels_zero (p : Policy) : levelDefects s0 (con0 p) = (0, 0, 0) := by
+  cases p <;> decide +kernel
+end Fx
+
+/-- all hypotheses of 3a/3b hold on a 4-step set-speed run over the trace
+    `(t, v) = (0,0), (1,1), (2,2), (4,2), (5,1)` (accelerate, accelerate, hold, brake), so their
+    conclusions apply at the saved step after `ssPre` (and, with `post = []`, at the end) -/
+example : ∃ con' res' s',
+    ssWalk C01.Ex.kQ Fx.cT Fx.g Fx.rho Fx.tpc (Fx.con0 .proportional, Fx.strap, Fx.s0) Fx.ssPre
+      = .ok (con', res', s') ∧ LevelsClosed s' con' ∧ PowerAgree s' con' := by
+  obtain ⟨fin, h, _⟩ := C01.Ex.okAnd_exists
+    (r := ssWalk C01.Ex.kQ Fx.cT Fx.g Fx.rho Fx.tpc (Fx.con0 .proportional, Fx.strap, Fx.s0) Fx.ssTr)
+    (p := fun _ => true) (by decide +kernel)
+  rw [Fx.ssTr_eq] at h
+  obtain ⟨con', res', s', h1, _, hc, hp, _⟩ := C11_ss_closed _ _ _ _ _ _ _ _ fin Fx.ssPre Fx.ssPost
+    (Fx.con0_dynOK _) (Fx.levels_zero _) (Fx.con0_zero _) h
+  exact ⟨con', res', s', h1, hc, hp (by simp [Fx.ssPre])⟩
+
+/-- the run really brakes at the end and has moved energy (the conclusions are not about zeros) -/
+example : C01.Ex.okAnd (fun fin : SsState ℚ => decide (fin.2.2.k.pwrWhlOut < 0 ∧
+      0 < fin.2.2.k.energyWhlOutNeg ∧ 0 < fin.1.state.energyFuel ∧ fin.1.state.energyRes ≠ 0))
+    (ssWalk C01.Ex.kQ Fx.cT Fx.g Fx.rho Fx.tpc (Fx.con0 .proportional, Fx.strap, Fx.s0) Fx.ssTr)
+    = true := by decide +kernel
+
+/-- all hypotheses of 3c/3d hold on a 4-step speed-limited run (RESGreedy): accelerate to the 3 m/s
+    limit, cruise, brake for the 1 m/s limit with friction brake + dynamic braking, cruise -/
+example : ∃ con' res' fb' bp' s',
+    slWalk C01.Ex.kQ Fx.cT Fx.sqrtQ Fx.g Fx.rho Fx.tpc
+      (Fx.con0 .resGreedy, Fx.strap, Fx.fb0, Fx.bp0, Fx.s0) Fx.slPre
+      = .ok (con', res', fb', bp', s') ∧ LevelsClosed s' con' ∧ PowerAgree s' con' := by
+  obtain ⟨fin, h, _⟩ := C01.Ex.okAnd_exists
+    (r := slWalk C01.Ex.kQ Fx.cT Fx.sqrtQ Fx.g Fx.rho Fx.tpc
+      (Fx.con0 .resGreedy, Fx.strap, Fx.fb0, Fx.bp0, Fx.s0) (Fx.slPre ++ Fx.slPost))
+    (p := fun _ => true) (by decide +kernel)
+  obtain ⟨con', res', fb', bp', s', h1, _, hc, hp, _⟩ := C11_sl_closed _ _ _ _ _ _ _ _ _ _ _ fin
+    Fx.slPre Fx.slPost (Fx.con0_dynOK _) (Fx.levels_zero _) (Fx.con0_zero _) h
+  exact ⟨con', res', fb', bp', s', h1, hc, hp (by simp [Fx.slPre])⟩
+
+/-- the third step of that run brakes (friction brake applied, negative wheel power) -/
+example : C01.Ex.okAnd (fun fin : SlState ℚ => decide (fin.2.2.2.2.k.pwrWhlOut < 0 ∧
+      0 < fin.2.2.1.force ∧ 0 < fin.2.2.2.2.k.energyWhlOutNeg))
+    (slWalk C01.Ex.kQ Fx.cT Fx.sqrtQ Fx.g Fx.rho Fx.tpc
+      (Fx.con0 .resGreedy, Fx.strap, Fx.fb0, Fx.bp0, Fx.s0) Fx.slPre) = true := by decide +kernel
+
+/-- **4c. Trip outputs at a saved step of a run** (`LevelsClosed` is what 3b/3d give): the fuel and
+    battery outputs are the CONSIST's cumulative counters times the factor. -/
+def C11_trip_outputs_run_statement : Prop :=
+  ∀ (c36525 : α) (days : Option α) (con : Consist α) (s : TrainState α) (ann : Bool),
+    LevelsClosed s con →
+      tripEnergyFuel c36525 days con ann = con.state.energyFuel * scalingFactor c36525 ann days ∧
+      tripNetEnergyRes c36525 days con ann = con.state.energyRes * scalingFactor c36525 ann days ∧
+      tripEnergyFuel c36525 days con false = con.state.energyFuel ∧
+      tripNetEnergyRes c36525 days con false = con.state.energyRes
+
+theorem C11_trip_outputs_run : C11_trip_outputs_run_statement (α := α) := by
+  intro c days con s ann h
+  obtain ⟨_, _, _, _, _, hF, hR⟩ := h
+  have h1 : scalingFactor c false days = 1 := rfl
+  simp only [tripEnergyFuel, tripNetEnergyRes, h1, mul_one, hF, hR, and_self]
+
+/-- non-vacuity: at the end of the set-speed example run, annualised over a 7-day simulation -/
+example : ∃ con' res' s',
+    ssWalk C01.Ex.kQ Fx.cT Fx.g Fx.rho Fx.tpc (Fx.con0 .proportional, Fx.strap, Fx.s0) Fx.ssTr
+      = .ok (con', res', s') ∧
+    tripEnergyFuel (36525/100) (some 7) con' true = con'.state.energyFuel * (36525/700) ∧
+    tripNetEnergyRes (36525/100) (some 7) con' false = con'.state.energyRes := by
+  obtain ⟨fin, h, _⟩ := C01.Ex.okAnd_exists
+    (r := ssWalk C01.Ex.kQ Fx.cT Fx.g Fx.rho Fx.tpc (Fx.con0 .proportional, Fx.strap, Fx.s0) Fx.ssTr)
+    (p := fun _ => true) (by decide +kernel)
+  rw [← List.append_nil Fx.ssTr] at h
+  obtain ⟨con', res', s', h1, _, hc, _⟩ := C11_ss_closed _ _ _ _ _ _ _ _ fin Fx.ssTr []
+    (Fx.con0_dynOK _) (Fx.levels_zero _) (Fx.con0_zero _) h
+  obtain ⟨t1, _, _, t4⟩ := C11_trip_outputs_run (36525/100 : ℚ) (some 7) con' s' true hc
+  refine ⟨con', res', s', h1, ?_, t4⟩
+  rw [t1, (C11_scaling_factor (36525/100 : ℚ) 7 none).2.1]
+  norm_num
 
 end Altrios.Proofs.C11
